@@ -31,7 +31,7 @@ META = {
     "x max_iter 1..8 x verbose: report vs the Gauss-Newton orbit obtained by single-step runs and vs the stop-rule prediction; (edit) a converging first call, then an external change (pose re-bound / edited in place / fixed flag set), then the judged call vs the orbit of a fresh graph in the edited state; (split) every composition k1+...+km = n, n<=6, with tol=0 "
     "and with tol>0. non-trivial = behaviour with at least 2 chi2 values / run with at least one update",
     "assumptions": ["TLC 1.8.0 trusted; if tlc is missing the same transition relation (ref/stoprule.enumerate_model) is enumerated and evidence says tlc_used=false", "eps in the denominator and NaN chi2 are outside the TLA+ model; they are covered by the direct enumeration with IEEE semantics"],
-    "required_classes": ["edit:rebind", "edit:inplace", "edit:flag", "model:early_stop", "model:limit_converged", "model:limit_not_converged", "model:chi2_increase", "model:equal_chi2", "direct:converged", "direct:limit", "direct:nan_chi2", "direct:verbose", "split:tol0", "split:tolpos", "stop_at_first_iteration_possible"],
+    "required_classes": ["scripted_extreme_sequences", "edit:rebind", "edit:inplace", "edit:flag", "model:early_stop", "model:limit_converged", "model:limit_not_converged", "model:chi2_increase", "model:equal_chi2", "direct:converged", "direct:limit", "direct:nan_chi2", "direct:verbose", "split:tol0", "split:tolpos", "stop_at_first_iteration_possible"],
     "bounds": {"quick": "TLC MaxIter 1..3 x 7 tolerances (5425 behaviours); direct max_iter 1..6; splits n<=5", "thorough": "TLC MaxIter 1..5 x 7 tolerances + MaxIter 6 x 3 tolerances; direct max_iter 1..8 (small graphs 1..30); splits n<=6"},
 }
 
@@ -145,6 +145,23 @@ def replay_behaviour(b, max_iter):
 
 
 # ----------------------------------------------------------------------------------------------- direct exploration
+class PenaltyOdometry(I.EdgeOdometry):
+    """a user subclass that overrides the public calc_chi2 hook (a constant penalty on top of e^T Omega e): whatever the optimizer
+    reports as chi2 has to be what Graph.calc_chi2() says for the same state"""
+
+    def calc_chi2(self):
+        return super().calc_chi2() + 0.75
+
+
+def _build(spec):
+    g, verts, edges = GB.build({k: v for k, v in spec.items() if k != "penalty"})
+    if spec.get("penalty"):
+        for e in edges:
+            if type(e) is I.EdgeOdometry:
+                e.__class__ = PenaltyOdometry
+    return g, verts, edges
+
+
 def direct_graphs(tier, seed):
     out = []
     # shape-family slice: spanning 2-edge multisets, first vertex fixed
@@ -169,6 +186,8 @@ def direct_graphs(tier, seed):
     out.append(("diverging", {"kind": "SE2"}))
     out.append(("diverging", {"kind": "SE3"}))
     out.append(("truth", {"kind": "R2"}))
+    out.append(("slam", {"kind": "SE2", "fam": "ring", "n": 3, "noise": "sin", "nz": 0.02, "penalty": True}))
+    out.append(("slam", {"kind": "SE3", "fam": "helix", "n": 3, "noise": "sin", "nz": 0.02, "penalty": True}))
     return out
 
 
@@ -178,7 +197,10 @@ def direct_spec(gd, seed):
         return F.make_spec(d["types"], seed, d["ms"], d.get("fixed", [True, False, False]), None, None, None)
     if typ == "slam":
         dt, dr = (0.3, 0.2) if d["kind"] == "SE2" else (0.1, 0.05)
-        return SF.make(d["fam"], d["kind"], d["n"], "alt", d["noise"], dt, dr, d["nz"], seed)[0]
+        sp = SF.make(d["fam"], d["kind"], d["n"], "alt", d["noise"], dt, dr, d["nz"], seed)[0]
+        if d.get("penalty"):
+            sp["penalty"] = True
+        return sp
     if typ == "singular":
         k = d["kind"]
         c = I.COMPACT[k]
@@ -217,7 +239,7 @@ def compositions(n):
 
 def orbit(spec, steps):
     """states and chi2 of the Gauss-Newton orbit O_t, t = 0..steps, by single-iteration runs on a fresh graph."""
-    g, verts, edges = GB.build(spec)
+    g, verts, edges = _build(spec)
     snaps = [GB.snapshot(verts)]
     with np.errstate(all="ignore"):
         chis = [float(g.calc_chi2())]
@@ -483,7 +505,7 @@ def _eval_direct(case, spec, info):
     outs = {}
     upd = 0
     for verbose in (False, True):
-        g, verts, edges = GB.build(spec)
+        g, verts, edges = _build(spec)
         buf = io.StringIO()
         with contextlib.redirect_stdout(buf):
             r = GB.optimize(g, tol=tol, max_iter=mi, fix_first_pose=False, verbose=verbose)
@@ -524,7 +546,7 @@ def _eval_split(case, spec, info):
     tol = case["tol"]
     n = sum(parts)
     snaps, chis = orbit(spec, n)
-    g, verts, edges = GB.build(spec)
+    g, verts, edges = _build(spec)
     u = 0  # total updates applied so far
     calls = 0
     for j, k in enumerate(parts):
@@ -544,7 +566,7 @@ def _eval_split(case, spec, info):
     if tol == 0.0 and not msgs:
         if u != n:
             msgs.append("split %r with tol=0 applied %d updates, a single call applies %d" % (parts, u, n))
-        g1, v1, _ = GB.build(spec)
+        g1, v1, _ = _build(spec)
         GB.optimize(g1, tol=0.0, max_iter=n, fix_first_pose=False)
         if not _snap_equal(GB.snapshot(v1), GB.snapshot(verts)):
             msgs.append("split %r ends in different poses than a single optimize(max_iter=%d, tol=0)" % (parts, n))
@@ -557,7 +579,7 @@ def _eval_edit(case, spec, info):
     in place, a fixed flag toggled), then the judged call: its report must describe the NEW state's orbit (no stale linearisation)."""
     msgs = []
     tol, k = case["tol"], case["max_iter"]
-    g, verts, edges = GB.build(spec)
+    g, verts, edges = _build(spec)
     GB.optimize(g, tol=max(tol, 1e-6), max_iter=12, fix_first_pose=False)
     free = [i for i, v in enumerate(verts) if not v.fixed]
     if not free or not all(np.all(np.isfinite(np.asarray(v.pose))) for v in verts):
@@ -573,6 +595,8 @@ def _eval_edit(case, spec, info):
     # fresh graph in exactly this state: its single-step orbit is the oracle
     snap = GB.snapshot(verts)
     spec2 = {"vertices": [dict(v, pose=list(sn[2]), fixed=bool(vv.fixed)) for v, sn, vv in zip(spec["vertices"], snap, verts)], "edges": spec["edges"]}
+    if spec.get("penalty"):
+        spec2["penalty"] = True
     snaps, chis = orbit(spec2, k)
     r = GB.optimize(g, tol=tol, max_iter=k, fix_first_pose=False)
     what = "second call optimize(tol=%g, max_iter=%d) after an external %s of vertex #%d" % (tol, k, case["what"], j)
